@@ -91,9 +91,11 @@ def run_l1(n: int, seed: int) -> list[dict]:
         if i < n_shapes:
             api = gen_api.SHAPES[i // 2]()
             api_seed = "shape:" + gen_api.SHAPES[i // 2].__name__
+            api_idx = -1
         else:
             api_seed = seed * 100003 + (i - n_shapes) // 2
-            api = gen_api.gen_api(random.Random(api_seed), (i - n_shapes) // 2)
+            api_idx = (i - n_shapes) // 2
+            api = gen_api.gen_api(random.Random(api_seed), api_idx)
         enc = apienc.api_sx(api)
         module_names = [m.name for m in api.modules.values()] + [q.alias for m in api.modules.values() for q in m.qualified_imports if q.alias]
         line = vlib.sx(["back", nc, enc, []])
@@ -101,7 +103,7 @@ def run_l1(n: int, seed: int) -> list[dict]:
         out.mkdir(parents=True)
         impl = impl_generate(api, nc, out)
         shutil.rmtree(out, ignore_errors=True)
-        items.append({"idx": i, "nc": nc, "api_seed": api_seed, "impl": impl, "module_names": module_names})
+        items.append({"idx": i, "nc": nc, "api_seed": api_seed, "api_idx": api_idx, "impl": impl, "module_names": module_names})
         lines.append(line)
     models = vlib.run_model(lines)
     for it, m in zip(items, models, strict=True):
